@@ -41,7 +41,7 @@ PROPS = {
  ),
  "C03": dict(
     level="proof",
-    claim="Proof of NumPy's shape law, source-index law and element law for transpose (default and compile-time axes), moveaxis and swapaxes (compile-time axes incl. negative) at ranks 1..4 for every extent and index, and the same laws for run-time axes (transpose with a run-time permutation, moveaxis with run-time ints) and for arrays whose shape is a bounded run-time-length static_vector (the library's run-time-loop branches); reshape (run-time target shape), flatten and expand_dims keep C order in closed form (source index = unravel(ravel(dst, dst_shape), src_shape)) with the requested / NumPy shape, ranks up to 3x3; shape laws of shape_reshape incl. one -1, expand_dims and atleast_nd at index level; shape_squeeze keeps exactly the non-1 extents in order for every pattern of single extents at ranks 1..4 (view::squeeze is reshape to that shape); flip_slices reverses exactly the requested axes (scalar, list incl. negative entries, None; ranks 1..4) - the element law of flip then rests on the slicing of C05, which is not decided; moveaxis with several axes: the permutation is NumPy's for EVERY pair of duplicate-free axis lists of length 2 (ranks 3, 4, entries non-negative or negative; length 3 at rank 4 in the thorough tier) - exhaustive, since the function depends only on rank and lists. (E1 view level, constant small shapes with symbolic element values: c03g_views) shape and every element of flip (None / one axis / negative axis / axis lists, flip twice), flipud/fliplr, squeeze, atleast_1d/2d/nd, reshape (ct and run-time target, one -1 in either position), flatten, transpose (default, run-time and ct permutations, permutation then inverse), moveaxis, swapaxes (negative axes) and expand_dims (one axis, negative, axis list) equal NumPy's definition written against the source array. The same view-level obligations are also decided on fixed-dimension arrays whose shape is a RUN-TIME value (std::array<size_t,R> shape pinned to the listed extents by ASSUME): the library's run-time branches (loops over len(shape), maybe-typed results that must have a value).",
+    claim="Proof of NumPy's shape law, source-index law and element law for transpose (default and compile-time axes), moveaxis and swapaxes (compile-time axes incl. negative) at ranks 1..4 for every extent and index, and the same laws for run-time axes (transpose with a run-time permutation, moveaxis with run-time ints) and for arrays whose shape is a bounded run-time-length static_vector (the library's run-time-loop branches); reshape (run-time target shape), flatten and expand_dims keep C order in closed form (source index = unravel(ravel(dst, dst_shape), src_shape)) with the requested / NumPy shape, ranks up to 3x3; shape laws of shape_reshape incl. one -1, expand_dims and atleast_nd at index level; shape_squeeze keeps exactly the non-1 extents in order for every pattern of single extents at ranks 1..4 (view::squeeze is reshape to that shape); flip_slices reverses exactly the requested axes (scalar, list incl. negative entries, None; ranks 1..4) - the element law of flip then rests on the slicing of C05, which is not decided; moveaxis with several axes: the permutation is NumPy's for EVERY pair of duplicate-free axis lists of length 2 (ranks 3, 4, entries non-negative or negative; length 3 at rank 4 in the thorough tier) - exhaustive, since the function depends only on rank and lists. (E1 view level, constant small shapes with symbolic element values: c03g_views) shape and every element of flip (None / one axis / negative axis / axis lists, flip twice), flipud/fliplr, squeeze, atleast_1d/2d/nd, reshape (ct and run-time target, one -1 in either position), flatten, transpose (default, run-time and ct permutations, permutation then inverse), moveaxis, swapaxes (negative axes) and expand_dims (one axis, negative, axis list) equal NumPy's definition written against the source array. The same view-level obligations are also decided on fixed-dimension arrays whose shape is a RUN-TIME value (std::array<size_t,R> shape pinned to the listed extents by ASSUME): the library's run-time branches (loops over len(shape), maybe-typed results that must have a value). (c03b_dynamic) index::scatter places element i at position idx[i] for fixed and bounded run-time-length vectors with compile-time or run-time indices, and transpose with compile-time axes is decided on bounded-dimension arrays as well.",
     note=E1_NOTE,
     technique=E1_TECH,
     e1=[dict(tu="c03_rearrange.cpp"), dict(tu="c03b_dynamic.cpp"), dict(tu="c03c_reshape.cpp"), dict(tu="c15_args.cpp"), dict(tu="c02_capacity.cpp"), dict(tu="c03d_squeeze.cpp"), dict(tu="c03e_flip.cpp"), dict(tu="c03f_moveaxis_multi.cpp"), dict(tu="c03g_views.cpp"), dict(tu="c03g_views_rt.cpp"), dict(tu="c02d_capacity2.cpp")],
@@ -53,7 +53,7 @@ PROPS = {
  ),
  "C04": dict(
     level="proof",
-    claim="Proof of shape law, source-index law and element law for tile (reps of equal and greater length), repeat along an axis (scalar repeats, incl. negative axis) and roll along an axis for EVERY shift magnitude and sign, ranks 1..3, every extent and index (compile-time and run-time axes); concatenate at index level: result shape (summed extent on the axis, failure exactly when another extent differs), and for every destination index which operand and which source index is read, run-time axis incl. negative; pad (shape = source + both widths; a coordinate maps to the source exactly outside the padding, view::pad reads the source element or the fill value); tril/triu (kept side exactly col-row <= k resp. >= k, identity index, 1-d source used as every row); eye (fill exactly on the k-th diagonal); expand (axis extent s+(s-1)*spacing; multiples of spacing+1 map to coordinate/(spacing+1), everything else is a fill position; run-time axis incl. negative); take along a run-time axis incl. negative (shape; source coordinate = listed entry, a negative entry counted from the end, inside the extent); diagonal for either sign of the offset (shape incl. diagonal length, both diagonal coordinates inside their extents, other coordinates in order); sliding_window (windowed axes shrink by w-1, window extents appended, source = position + offset; scalar window on a run-time axis incl. negative, and one window per axis); sibling side-consistency of paired locals in the anchor files (R-PAIR). The remaining operations of the property are not decided. where(c,x,y) on three differently shaped constant-shape operands has the broadcast shape and selects x or y by the broadcast condition at every index. (E1 view level, constant small shapes with symbolic element values: c04i_views, c04j_views) shape and every element of tile (short/long reps), repeat (axis, negative axis, no axis, per-element repeats incl. 0), roll (beyond-extent and negative shifts, negative axis, no axis, several axes), take (negative / repeated entries, negative axis), compress (constant condition), concatenate (axis, negative axis, operand order, no axis), stack / hstack / vstack / dstack / column_stack (matrices and vectors), split (sections and indices), sliding_window (all axes, one axis), diagonal (offsets of either sign, chosen and negative axes on rank 3), diagflat, tril / triu (k of either sign, batches), eye / identity / tri, full / zeros / ones (_like), arange on an integer grid, pad (per-side widths), resize (nearest neighbour) and expand (spacing, negative axis, several axes) equal the definition written against the source array. The same view-level obligations are also decided on fixed-dimension arrays whose shape is a RUN-TIME value (std::array<size_t,R> shape pinned to the listed extents by ASSUME): the library's run-time branches (loops over len(shape), maybe-typed results that must have a value).",
+    claim="Proof of shape law, source-index law and element law for tile (reps of equal and greater length), repeat along an axis (scalar repeats, incl. negative axis) and roll along an axis for EVERY shift magnitude and sign, ranks 1..3, every extent and index (compile-time and run-time axes); concatenate at index level: result shape (summed extent on the axis, failure exactly when another extent differs), and for every destination index which operand and which source index is read, run-time axis incl. negative; pad (shape = source + both widths; a coordinate maps to the source exactly outside the padding, view::pad reads the source element or the fill value); tril/triu (kept side exactly col-row <= k resp. >= k, identity index, 1-d source used as every row); eye (fill exactly on the k-th diagonal); expand (axis extent s+(s-1)*spacing; multiples of spacing+1 map to coordinate/(spacing+1), everything else is a fill position; run-time axis incl. negative); take along a run-time axis incl. negative (shape; source coordinate = listed entry, a negative entry counted from the end, inside the extent); diagonal for either sign of the offset (shape incl. diagonal length, both diagonal coordinates inside their extents, other coordinates in order); sliding_window (windowed axes shrink by w-1, window extents appended, source = position + offset; scalar window on a run-time axis incl. negative, and one window per axis); sibling side-consistency of paired locals in the anchor files (R-PAIR). The remaining operations of the property are not decided. where(c,x,y) on three differently shaped constant-shape operands has the broadcast shape and selects x or y by the broadcast condition at every index. (E1 view level, constant small shapes with symbolic element values: c04i_views, c04j_views) shape and every element of tile (short/long reps), repeat (axis, negative axis, no axis, per-element repeats incl. 0), roll (beyond-extent and negative shifts, negative axis, no axis, several axes), take (negative / repeated entries, negative axis), compress (constant condition), concatenate (axis, negative axis, operand order, no axis), stack / hstack / vstack / dstack / column_stack (matrices and vectors), split (sections and indices), sliding_window (all axes, one axis), diagonal (offsets of either sign, chosen and negative axes on rank 3), diagflat, tril / triu (k of either sign, batches), eye / identity / tri, full / zeros / ones (_like), arange on an integer grid, pad (per-side widths), resize (nearest neighbour) and expand (spacing, negative axis, several axes) equal the definition written against the source array. The same view-level obligations are also decided on fixed-dimension arrays whose shape is a RUN-TIME value (std::array<size_t,R> shape pinned to the listed extents by ASSUME): the library's run-time branches (loops over len(shape), maybe-typed results that must have a value). (c04_select ob_c04_roll_list) index::roll with a LIST of axes - fixed or bounded run-time length, scalar or per-axis shifts, repeated axes accumulating - shifts exactly the listed axes for every shape, position and shift. (c04j_views) linspace: shape (num), first element start, with endpoint last element stop, interior elements start + i*step bit-exact in the bounds' floating-point type, with and without endpoint, num 1..11.",
     note=E1_NOTE,
     technique=E1_TECH,
     e1=[dict(tu="c04_select.cpp"), dict(tu="c03b_dynamic.cpp"), dict(tu="c04b_concat.cpp"), dict(tu="c15b_pad_matmul.cpp"), dict(tu="c02c_padview.cpp"), dict(tu="c04d_tri.cpp"), dict(tu="c04e_window.cpp"), dict(tu="c04c_take.cpp"), dict(tu="c04f_diagonal.cpp"), dict(tu="c04g_expand.cpp"), dict(tu="c04h_cumsum.cpp"), dict(tu="c07c_where.cpp"), dict(tu="c04i_views.cpp"), dict(tu="c04j_views.cpp"), dict(tu="c04i_views_rt.cpp"), dict(tu="c04j_views_rt.cpp"), dict(tu="c07c_where_rt.cpp"), dict(tu="c04k_resize_enum.cpp"), dict(tu="c09b_bounded_values.cpp"), dict(tu="c02d_capacity2.cpp")],
@@ -145,7 +145,7 @@ PROPS["C07"] = dict(
 )
 PROPS["C10"] = dict(
     level="other",
-    claim="Every eager entry point under array/array (209) builds exactly one view by calling view::<its own name> with its own leading parameters in declaration order and returns eval() of that view with context, output and resolver forwarded; so the eager result is the evaluation of the lazy view the user would have built. R-EVAL: in every instantiated default evaluator the copy is output[ndindex(shape(output))[i]] = view[ndindex(shape(view))[i]] for i < ndindex(shape(view)).size(), reached only after shape(output)==shape(view), and the allocating overload resizes the result to shape(view) before the copy and returns it. R-FWD.defaults: a defaulted leading parameter of an eager wrapper has the default of the lazy view's parameter at the same position. (E1 c10b_eval, constant small shapes with symbolic elements) the arrays returned by array::transpose / reshape / tile / subtract (broadcast) / concatenate / sum / broadcast_to / matmul have the view's shape and, at every index, the element the operation's definition gives - this exercises the default evaluator's copy loop and result-buffer choice end to end for fixed results.",
+    claim="Every eager entry point under array/array (209) builds exactly one view by calling view::<its own name> with its own leading parameters in declaration order and returns eval() of that view with context, output and resolver forwarded; so the eager result is the evaluation of the lazy view the user would have built. R-EVAL: in every instantiated default evaluator the copy is output[ndindex(shape(output))[i]] = view[ndindex(shape(view))[i]] for i < ndindex(shape(view)).size(), reached only after shape(output)==shape(view), and the allocating overload resizes the result to shape(view) before the copy and returns it. R-FWD.defaults: a defaulted leading parameter of an eager wrapper has the default of the lazy view's parameter at the same position. (E1 c10b_eval, constant small shapes with symbolic elements) the arrays returned by array::transpose / reshape / tile / subtract (broadcast) / concatenate / sum / broadcast_to / matmul have the view's shape and, at every index, the element the operation's definition gives - this exercises the default evaluator's copy loop and result-buffer choice end to end for fixed results. (E3 c10_result_*) for reshape-to-a-clipped-shape / transpose / add / reshape / flatten over run-time-size sources, the buffer of the array type the eager resolver allocates (row- and column-major) can hold fewer elements than its capacity whenever the view has no compile-time size.",
     note=E2_NOTE,
     technique=E2_TECH,
     e1=[dict(tu="c10b_eval.cpp")],
@@ -185,14 +185,14 @@ PROPS["C13"] = dict(
 
 PROPS["C12"] = dict(
     level="other",
-    claim="In every instantiated SIMD evaluator path with a linear index (unary, same-shape binary, full reduction; x86 AVX and SSE, float and double): each packed load/store at &p[i] is reachable only through the true edge of (i + lanes) <= size with lanes = register bits / element bits and size the element count, each scalar tail store only through i < size; reduction accumulators are seeded from the op's identity and all identity sources of one instantiation agree; the index functions of the axis-reduction path compare positions with their raw axis parameter, and every call that reaches them passes a visibly normalised axis (R-AXISNORM.caller). The enumerator of the 2-d broadcast binary path is enumerated exhaustively by E1 for small shapes (output (R,C) with R in 1..3 and C crossing pack boundaries, every operand shape that broadcasts to it, pack width 4; width 8 in the thorough tier): every step stays inside output and operands, every output position is produced exactly once, and each lane is paired with NumPy's broadcast partner. The outer enumerator likewise (lhs ranks 1..3, rhs ranks 1..3, last extents below, at and above the pack width): every lane pairs out[p] with lhs[p / numel(rhs)] and rhs[p % numel(rhs)]. The axis-reduction enumerator likewise (ranks 1..3, every axis, horizontal and vertical kinds): every input element is accumulated exactly once into the output position with the reduced coordinate dropped. The matmul inner index function likewise (every product of a row with a column exactly once, lanes paired by the same inner index). Bit-identity of results and SIMDe/vector-extension back-ends are not decided.",
+    claim="In every instantiated SIMD evaluator path with a linear index (unary, same-shape binary, full reduction; x86 AVX and SSE, float and double): each packed load/store at &p[i] is reachable only through the true edge of (i + lanes) <= size with lanes = register bits / element bits and size the element count, each scalar tail store only through i < size; reduction accumulators are seeded from the op's identity and all identity sources of one instantiation agree; the index functions of the axis-reduction path compare positions with their raw axis parameter, and every call that reaches them passes a visibly normalised axis (R-AXISNORM.caller). The enumerator of the 2-d broadcast binary path is enumerated exhaustively by E1 for small shapes (output (R,C) with R in 1..3 and C crossing pack boundaries, every operand shape that broadcasts to it, pack width 4; width 8 in the thorough tier): every step stays inside output and operands, every output position is produced exactly once, and each lane is paired with NumPy's broadcast partner. The outer enumerator likewise (lhs ranks 1..3, rhs ranks 1..3, last extents below, at and above the pack width): every lane pairs out[p] with lhs[p / numel(rhs)] and rhs[p % numel(rhs)]. The axis-reduction enumerator likewise (ranks 1..3, every axis, horizontal and vertical kinds): every input element is accumulated exactly once into the output position with the reduced coordinate dropped. The matmul inner index function likewise (every product of a row with a column exactly once, lanes paired by the same inner index). (E1 c12b_simd_eval / c12c_simd_binary, VALUE level, compiler-vector-extension back end, 128 bit and in the thorough tier 256 bit, fixed-buffer arrays with symbolic element values) the array returned by evaluating with a SIMD context equals the definition at every index: add.reduce / multiply.reduce of INTEGER data over every axis of 2-d and 3-d arrays (negative axes, unit extents, packs plus tails), over the whole array, with keepdims True / False / None and with an initial value; add / multiply / subtract of 1-d int, float and double arrays for every element count 1..9 (thorough 1..17), bit for bit for floating point; add over every 2-d broadcast pattern; sqrt / floor / ceil; multiply.outer; matmul with a column-major right operand. x86 SSE / AVX / SIMDe back ends at value level, floating-point reductions and shapes beyond the listed ones are not decided.",
     note=E2_NOTE + " Dominance is computed on clang's CFG of the instantiated evaluator members (if-constexpr resolved). " + E1_NOTE,
     technique="static: CFG dominance rule over instantiated evaluator code (custom libTooling extractor), sibling agreement of identity sources and of the float/double back-end tables; " + E1_TECH + " (exhaustive small-shape enumeration of the broadcast enumerator)",
     e1=[dict(tu="c12_enum.cpp"), dict(tu="c12b_simd_eval.cpp"), dict(tu="c12c_simd_binary.cpp", flags=["-fno-math-errno"]), dict(tu="c12c_simd_binary.cpp", flags=["-fno-math-errno", "-DC12_CTX=simd::vector_256"], thorough_only=True)],
     e2=[dict(rule="R-SIMD"), dict(rule="R-AXISNORM.simd"), dict(rule="R-SIMDSIB"), dict(rule="R-SIMDATTR")],
     rule="E2: one instance per packed access / scalar tail store / accumulator seed in each instantiated evaluator member; distinct by (instantiation, source line)",
     explanation="Never reading or writing outside the buffers is, for the linear paths, exactly the loop-guard dominance property; seeding with identity is necessary for reductions other than add.",
-    not_decided="offsets computed by simd/index/ufunc.hpp enumerators (non-linear in run-time shapes), matmul tiles, element values",
+    not_decided="element values with the x86 / SIMDe back ends (structural rules only there), floating-point reductions (re-association), shapes beyond the enumerated ones, enumerator offsets for symbolic run-time shapes",
     assumptions=["driver /verif/drivers/simd_inst.cpp instantiates the evaluator for the listed contexts"],
 )
 
@@ -226,7 +226,7 @@ PROPS["C11"] = dict(
 
 PROPS["C08"] = dict(
     level="proof",
-    claim="Partial: (E1, proof for every extent and result index, ranks 2..3, one reduction axis given at compile or run time incl. negative, keepdims on/off) index::reduction_slices designates for result index r exactly [0, extent) on the reduced axis and [r_k, r_k+1) on every other axis, and remove_dims yields NumPy's result shape; (E1, element values symbolic, constant shapes (2,3) (3,2) (3,4) (4,3) (1,3) (3,1), rank-3 shapes (2,3,2) (2,2,3) (3,2,2)) the element of a reduction is the left fold, accumulator first, in increasing index order over exactly the reduction slice - shown with subtract, which is neither commutative nor associative -, with an initial value the fold starts from it, axis None folds the C-order flattening, and accumulate yields the prefix folds; (E2) sum/prod/cumsum/cumprod are the add/multiply reduction resp. accumulation with operands in order, the reduce_/accumulate_/outer_ overload families hand every parameter on, no reduction-composing view drops a parameter, the accumulate axis is normalised (c08c_reduce_views, constant and run-time shapes, symbolic integer elements) sum over one axis (positive, negative, compile-time), several axes (run-time list, negative entries, compile-time tuple), keepdims (one axis, several axes, all axes), initial value, all axes; prod, amax, amin (axis, all axes, initial), reduce_subtract (order, initial first, keepdims), reduce_maximum over several axes; cumsum, cumprod, accumulate_subtract: NumPy's shape and the fold of exactly the matching source elements at every index.",
+    claim="Partial: (E1, proof for every extent and result index, ranks 2..3, one reduction axis given at compile or run time incl. negative, keepdims on/off) index::reduction_slices designates for result index r exactly [0, extent) on the reduced axis and [r_k, r_k+1) on every other axis, and remove_dims yields NumPy's result shape; (E1, element values symbolic, constant shapes (2,3) (3,2) (3,4) (4,3) (1,3) (3,1), rank-3 shapes (2,3,2) (2,2,3) (3,2,2)) the element of a reduction is the left fold, accumulator first, in increasing index order over exactly the reduction slice - shown with subtract, which is neither commutative nor associative -, with an initial value the fold starts from it, axis None folds the C-order flattening, and accumulate yields the prefix folds; (E2) sum/prod/cumsum/cumprod are the add/multiply reduction resp. accumulation with operands in order, the reduce_/accumulate_/outer_ overload families hand every parameter on, no reduction-composing view drops a parameter, the accumulate axis is normalised (c08c_reduce_views, constant and run-time shapes, symbolic integer elements) sum over one axis (positive, negative, compile-time), several axes (run-time list, negative entries, compile-time tuple), keepdims (one axis, several axes, all axes), initial value, all axes; prod, amax, amin (axis, all axes, initial), reduce_subtract (order, initial first, keepdims), reduce_maximum over several axes; cumsum, cumprod, accumulate_subtract: NumPy's shape and the fold of exactly the matching source elements at every index. With a dtype wider than the element type (int8 / uint8 / int16 data, int64 dtype) both the reductions and the accumulations (cumsum, cumprod, accumulate_subtract) fold in the result type. (E2 R-REDAXIS) reductions composed inside one view function are taken over the same axis expression.",
     note=E1_NOTE + " " + E2_NOTE + " Assumes that a (start, stop) slice selects the elements start..stop-1 in order (C05, not decided) and that flatten keeps C order (proved under C03).",
     technique=E1_TECH + " + structural fold-order rule over the reduction views (custom libTooling extractor)",
     e1=[dict(tu="c08_reduce.cpp"), dict(tu="c08b_fold.cpp"), dict(tu="c08c_reduce_views.cpp"), dict(tu="c08c_reduce_views_rt.cpp"), dict(tu="c02d_capacity2.cpp")],
@@ -258,21 +258,21 @@ PROPS["C05"] = dict(
 
 PROPS["C17"] = dict(
     level="proof",
-    claim="Partial, one clause only: (E1 c17_pool, index level, exhaustive over small parameters) the output shape of 2-d pooling is the standard formula - floor((H-k)/s)+1, in ceil mode the ceiling with a last window that would start beyond the input dropped (PyTorch's rule), batch and channel extents kept - for every H in 1..7, k in 1..min(H,3), s in 1..3, both modes, on either spatial axis; and the window of output position p is rows / columns [p*s, p*s+k) with the batch / channel position kept, inside the input in floor mode and starting inside it in ceil mode. (E1 c17b_conv_shape, view level, constant shapes; the run-time kind does not fold) the output shape of conv1d / conv2d is floor((L + 2p - d(k-1) - 1)/s) + 1 per spatial axis for a stride, a zero padding and a dilation given per axis (asymmetric ones included), (N, C_out, ...) in front. (E1 c17c_pool_elem, constant and run-time shapes, symbolic INTEGER values of either sign) every element of max_pool2d is the maximum of exactly its window (2x2 stride 2 on two channels, overlapping rows, a non-square kernel, ceil mode with clipped last windows). The ELEMENT laws of average pooling, convolution, normalisation, softmax, linear, bilinear, distances are NOT decided: at view level only the shapes fold, the element obligations of max_pool2d, conv1d and linear-with-bias stay residual (run-time slice lists / nested reductions), and the floating-point routines are out of reach.",
+    claim="Partial, one clause only: (E1 c17_pool, index level, exhaustive over small parameters) the output shape of 2-d pooling is the standard formula - floor((H-k)/s)+1, in ceil mode the ceiling with a last window that would start beyond the input dropped (PyTorch's rule), batch and channel extents kept - for every H in 1..7, k in 1..min(H,3), s in 1..3, both modes, on either spatial axis; and the window of output position p is rows / columns [p*s, p*s+k) with the batch / channel position kept, inside the input in floor mode and starting inside it in ceil mode. (E1 c17b_conv_shape, view level, constant shapes; the run-time kind does not fold) the output shape of conv1d / conv2d is floor((L + 2p - d(k-1) - 1)/s) + 1 per spatial axis for a stride, a zero padding and a dilation given per axis (asymmetric ones included), (N, C_out, ...) in front. (E1 c17c_pool_elem, constant and run-time shapes, symbolic INTEGER values of either sign) every element of max_pool2d is the maximum of exactly its window (2x2 stride 2 on two channels, overlapping rows, a non-square kernel, ceil mode with clipped last windows). (E1 c17d_nn_elem) linear with and without bias equals the nested-loop definition for integer data of constant shape (2,3)x(2,3) / (1,3)x(2,3). (E2 R-REDAXIS) every reduction composed inside one view function (softmax, var, layer / instance / group normalisation, cosine_similarity) is taken over the same axis expression as its siblings. The ELEMENT laws of average pooling, convolution, normalisation, softmax, bilinear and the distances are NOT decided (bilinear / conv1d / conv2d do not fold; the floating-point routines are out of reach).",
     note=E1_NOTE + " The functions depend on (extent, kernel, stride, mode) only; these are constants, so the float quotient is folded by the compiler. Decided after the repair `fix: pooling in ceil mode drops a last window that would start beyond the input` (F35).",
-    technique=E1_TECH + " (exhaustive enumeration of pooling parameters)",
+    technique=E1_TECH + " (exhaustive enumeration of pooling parameters) + structural sibling-agreement rule over composed reductions (custom libTooling extractor)",
     e2=[dict(rule="R-REDAXIS")],
     e1=[dict(tu="c17_pool.cpp"), dict(tu="c17b_conv_shape.cpp", flags=["-DC17B_PART=1"]), dict(tu="c17b_conv_shape.cpp", flags=["-DC17B_PART=2"]), dict(tu="c17c_pool_elem.cpp"), dict(tu="c17c_pool_elem.cpp", flags=["-DVERIF_RT_KIND"]), dict(tu="c17d_nn_elem.cpp")],
     rule=E1_RULE,
     explanation="shape_pool2d / slice_pool2d are integer functions of four small parameters per axis; each (parameter combination, clause) is one obligation against the formula of the property statement.",
-    not_decided="every element law of C17 except max pooling on the listed shapes (average pooling, conv1d / conv2d, softmax / softmin, the normalisations, linear, bilinear, pairwise_distance, cosine_similarity); convolution with a batch above 1 or with groups (conv2d does not build / aborts there on the unchanged tree); pooling extents above 7",
+    not_decided="every element law of C17 except max pooling and linear on the listed shapes (average pooling, conv1d / conv2d, softmax / softmin, the normalisations, bilinear, pairwise_distance, cosine_similarity); convolution with a batch above 1 or with groups (conv2d does not build / aborts there on the unchanged tree); pooling extents above 7",
     assumptions=["kernel not larger than the input", "no padding, no dilation (pool2d has neither parameter)"],
 )
 
 HOOK_COMMITS = []
 PROPS["C16"] = dict(
     level="other",
-    claim="Partial, small scope: for operands of CONSTANT small shape with symbolic integer element values, the element of view::matmul is the sum of products over exactly the contracted index with NumPy's result shape - 2-d operands (1,1,1) (2,2,2) (2,3,2) (3,2,4) (1,4,3) (3,3,1) and batched operands incl. a broadcast batch axis on either side - and trace is the sum of the diagonal; in the thorough tier also matmulv2 (the tile/reshape/transpose/multiply/sum pipeline), dot / inner / vecdot of vectors, outer, kron (2,2)x(2,2) and tensordot with one contracted axis. Every operation of the view pipeline is compiled for those shapes and folded by LLVM, the values stay symbolic. Larger or run-time shapes, 1-d operand promotion in matmul, tensordot with explicit axis lists and floating-point data are not decided. (c16b_runtime) on fixed-dimension arrays with run-time shapes: matmul (2-d, batched with a broadcast batch axis), dot (vector.vector, vector.matrix, matrix.vector), inner, vecdot, outer, tensordot(1), trace (2-d and rank 3 with default axes) have a value and equal the defining sums. (c16c_capacity, index level) tensordot_lhs_reshape, dot_lhs_reshape, dot_lhs_tile, inner_lhs_reshape on bounded-dimension shapes that fill their capacity return a container that holds every extent (and, for tensordot, the defined extents).",
+    claim="Partial, small scope: for operands of CONSTANT small shape with symbolic integer element values, the element of view::matmul is the sum of products over exactly the contracted index with NumPy's result shape - 2-d operands (1,1,1) (2,2,2) (2,3,2) (3,2,4) (1,4,3) (3,3,1) and batched operands incl. a broadcast batch axis on either side - and trace is the sum of the diagonal; in the thorough tier also matmulv2 (the tile/reshape/transpose/multiply/sum pipeline), dot / inner / vecdot of vectors, outer, kron (2,2)x(2,2) and tensordot with one contracted axis. Every operation of the view pipeline is compiled for those shapes and folded by LLVM, the values stay symbolic. matmul of operands of DIFFERENT rank ((M,K)x(B,K,P), (B,M,K)x(K,P), (A,B,M,K)x(B,K,P)) reads each operand's batch position at its own offset. Larger or run-time shapes, 1-d operand promotion in matmul, tensordot with explicit axis lists and floating-point data are not decided. (c16b_runtime) on fixed-dimension arrays with run-time shapes: matmul (2-d, batched with a broadcast batch axis), dot (vector.vector, vector.matrix, matrix.vector), inner, vecdot, outer, tensordot(1), trace (2-d and rank 3 with default axes) have a value and equal the defining sums. (c16c_capacity, index level) tensordot_lhs_reshape, dot_lhs_reshape, dot_lhs_tile, inner_lhs_reshape on bounded-dimension shapes that fill their capacity return a container that holds every extent (and, for tensordot, the defined extents).",
     note=E1_NOTE + " The shapes are compile-time constants (tuple of meta::ct), i.e. the constant-shape branch of every index function on the path is what is proved; the run-time-shape branches of the same pipelines are covered only as far as C01-C08 cover the individual index functions.",
     technique=E1_TECH + " on view pipelines of constant shape (symbolic values)",
     e1=[dict(tu="c16_linalg.cpp"), dict(tu="c16b_runtime.cpp"), dict(tu="c16c_capacity.cpp")],
